@@ -1,0 +1,139 @@
+//go:build verif
+
+package network
+
+// Add-only accessors/constructors for the /verif wiresim engine (properties
+// C30-C33). Compiled only with -tags verif. Nothing here changes behaviour of
+// the package; every function forwards to the unexported code it names.
+
+import (
+	"net"
+
+	"github.com/icon-project/goloop/common/log"
+	"github.com/icon-project/goloop/module"
+)
+
+// ---- packets (C30, C33)
+
+// VerifNewPacket builds a packet with every wire field given.
+func VerifNewPacket(pi, spi module.ProtocolInfo, src module.PeerID, dest, ttl byte, payload []byte, extHint byte, ext []byte) *Packet {
+	pkt := NewPacket(pi, spi, payload)
+	pkt.src = src
+	pkt.dest = dest
+	pkt.ttl = ttl
+	if len(ext) > 0 || extHint != 0 {
+		pkt.extendInfo = newPacketExtendInfo(extHint, len(ext))
+		pkt.ext = ext
+	}
+	return pkt
+}
+
+// VerifPacketView is a copy of a packet's wire fields.
+type VerifPacketView struct {
+	Protocol, SubProtocol module.ProtocolInfo
+	Src                   module.PeerID
+	Dest, TTL             byte
+	Payload               []byte
+	ExtHint               byte
+	Ext                   []byte
+	Hash                  uint64
+}
+
+func (p *Packet) VerifView() VerifPacketView {
+	n := p.extendInfo.len()
+	if n > len(p.ext) {
+		n = len(p.ext)
+	}
+	return VerifPacketView{p.protocol, p.subProtocol, p.src, p.dest, p.ttl,
+		p.payload, p.extendInfo.hint(), p.ext[:n], p.hashOfPacket}
+}
+
+// ---- secure channel (C31)
+
+// VerifSecureKey names the unexported ephemeral key type (NewSecureConn takes it).
+type VerifSecureKey = secureKey
+
+func VerifNewSecureKey() *VerifSecureKey {
+	return newSecureKey(DefaultSecureEllipticCurve, nil)
+}
+func (k *secureKey) VerifPublic() []byte { return k.marshalPublicKey() }
+func (k *secureKey) VerifSetup(sa SecureAeadSuite, peerPublicKey []byte, defaultLower bool, numOfSecret int) error {
+	return k.setup(sa, peerPublicKey, defaultLower, numOfSecret)
+}
+func (k *secureKey) VerifSecrets() (secrets [][]byte, extra []byte) { return k.secret, k.extra }
+func (c *SecureConn) VerifSecrets() (in, out []byte)                { return c.in.secret, c.out.secret }
+
+// ---- peers and handlers (C32, C33)
+
+// VerifNewPeer is newPeer for a harness-owned connection. The peer's
+// receive/send goroutines are never started (the harness reads packets with
+// VerifReadPacket and dispatches them with VerifDeliver itself).
+func VerifNewPeer(conn net.Conn, in bool, channel string, l log.Logger) *Peer {
+	p := newPeer(conn, in, "", l)
+	p.once.Do(func() {})
+	p.setChannel(channel)
+	return p
+}
+
+// VerifReadPacket is the read step of Peer.receiveRoutine.
+func (p *Peer) VerifReadPacket() (*Packet, error) {
+	pkt, err := p.reader.ReadPacket()
+	if err != nil {
+		return nil, err
+	}
+	pkt.sender = p.ID()
+	return pkt, nil
+}
+func (p *Peer) VerifSetID(id module.PeerID) { p.setID(id) }
+func (p *Peer) VerifSetProtocols(pis ...module.ProtocolInfo) {
+	s := newProtocolInfos()
+	s.Set(pis)
+	p.setProtocolInfos(s)
+}
+
+// VerifSessionSecret is the secret both ends sign in the signature exchange (nil before the secure exchange).
+func (p *Peer) VerifSessionSecret() []byte {
+	if p.secureKey == nil {
+		return nil
+	}
+	return p.secureKey.extra
+}
+
+type verifNext struct {
+	*peerHandler
+	f func(p *Peer)
+}
+
+func (h *verifNext) onPeer(p *Peer) { h.f(p) }
+
+// VerifNewAuthenticator is newAuthenticator followed by a handler that only
+// reports the peers the authenticator hands over (nextOnPeer).
+func VerifNewAuthenticator(w module.Wallet, l log.Logger, onAuthenticated func(p *Peer)) *Authenticator {
+	a := newAuthenticator(w, l)
+	a.setNext(&verifNext{newPeerHandler(a.self, l), onAuthenticated})
+	return a
+}
+
+// VerifDispatchPeer is PeerDispatcher.dispatchPeer with ph as the front handler.
+func VerifDispatchPeer(p *Peer, ph PeerHandler) {
+	p.setPacketCbFunc(ph.onPacket)
+	p.setCloseCbFunc(ph.onClose)
+	ph.onPeer(p)
+}
+
+// VerifDeliver is the dispatch step of Peer.receiveRoutine (current packet callback).
+func (p *Peer) VerifDeliver(pkt *Packet) {
+	if cb := p.getPacketCbFunc(); cb != nil {
+		cb(pkt, p)
+	}
+}
+
+// VerifNewPeerToPeer is newPeerToPeer as NewManager calls it, without dialer and metrics.
+func VerifNewPeerToPeer(channel string, self module.PeerID, l log.Logger) *PeerToPeer {
+	return newPeerToPeer(channel, &Peer{id: self, netAddress: NetAddress("sim:0")}, nil, nil, l)
+}
+func (p2p *PeerToPeer) VerifSetCb(pi module.ProtocolInfo, f func(pkt *Packet, p *Peer)) {
+	p2p.setCbFunc(pi, f, nil)
+}
+func (p2p *PeerToPeer) VerifAllowed(role module.Role) *PeerIDSet { return p2p.getAllowed(role) }
+func (p2p *PeerToPeer) VerifSetRole(roles ...module.Role)        { p2p.setRole(NewPeerRoleFlag(roles...)) }
